@@ -18,7 +18,7 @@ for pid in ids:
         "thorough_cmd": "./check %s --tier thorough" % pid,
         "evidence_file": "evidence/%s.json" % pid,
         "replay_cmd_template": "./check %s --replay {path}" % pid,
-        "engine": P.get("engine", "coq+" + "+".join(P["drivers"])),
+        "engine": P.get("engine", "coq+" + "+".join(d.split(":")[-1] for d in P["drivers"])),
         "level_claimed": {"category": "proof", "text": P["level_text"], "design_ref": P.get("design_ref", "DESIGN.md section 3")},
         "level_note": P["level_note"],
         "technique": P.get("technique", "machine-checked proof in Coq 8.16 over a hand-written executable model + correspondence check against the implementation"),
